@@ -222,8 +222,8 @@ class IntervalProd(Set):
         elif not isinstance(other, IntervalProd):
             return False
 
-        return (np.all(self.min_pt == other.min_pt) and
-                np.all(self.max_pt == other.max_pt))
+        return (np.array_equal(self.min_pt, other.min_pt) and
+                np.array_equal(self.max_pt, other.max_pt))
 
     def __hash__(self):
         """Return ``hash(self)``."""
